@@ -490,17 +490,21 @@ def _dist_pts_to_path(path, pts, n=200):
         best = float('inf')
         for seg, sp in zip(path, segpts):
             ds = np.abs(sp - p)
-            i = int(np.argmin(ds))
-            if ds[i] > best + 0.5:
-                continue
-            lo, hi = ts[max(i - 1, 0)], ts[min(i + 1, n)]
-            for _ in range(40):
-                m1, m2 = lo + (hi - lo) / 3, hi - (hi - lo) / 3
-                if abs(seg.point(m1) - p) < abs(seg.point(m2) - p):
-                    hi = m2
-                else:
-                    lo = m1
-            best = min(best, float(ds[i]), abs(seg.point((lo + hi) / 2) - p))
+            # every local minimum of the sampled distance is refined (a curve with a loop or a cusp passes close to the point on one
+            # branch and through it on another)
+            cand = [i_ for i_ in range(n + 1) if (i_ == 0 or ds[i_] <= ds[i_ - 1]) and (i_ == n or ds[i_] <= ds[i_ + 1])]
+            cand.sort(key=lambda i_: ds[i_])
+            for i in cand[:4]:
+                if ds[i] > best + 0.5 * (1 + abs(p)) :
+                    continue
+                lo, hi = ts[max(i - 1, 0)], ts[min(i + 1, n)]
+                for _ in range(40):
+                    m1, m2 = lo + (hi - lo) / 3, hi - (hi - lo) / 3
+                    if abs(seg.point(m1) - p) < abs(seg.point(m2) - p):
+                        hi = m2
+                    else:
+                        lo = m1
+                best = min(best, float(ds[i]), abs(seg.point((lo + hi) / 2) - p))
         worst = max(worst, best)
     return worst
 
